@@ -53,6 +53,25 @@ async fn one(
     Ok(HttpResponseOk(vec![path.into_inner().x]))
 }
 
+#[derive(Deserialize, JsonSchema)]
+struct RestPath {
+    rest: Vec<String>,
+}
+
+/// Table E: a route for exactly `/p` beside a wildcard below it (same method).
+#[endpoint { method = GET, path = "/p" }]
+async fn exact_p(_rqctx: RequestContext<()>) -> Result<HttpResponseOk<Vec<String>>, HttpError> {
+    Ok(HttpResponseOk(vec![]))
+}
+
+#[endpoint { method = GET, path = "/p/{rest:.*}", unpublished = true }]
+async fn wild_p(
+    _rqctx: RequestContext<()>,
+    path: Path<RestPath>,
+) -> Result<HttpResponseOk<Vec<String>>, HttpError> {
+    Ok(HttpResponseOk(path.into_inner().rest))
+}
+
 fn segs_str(v: &[String]) -> String {
     let mut s = format!("{}", v.len());
     for x in v {
@@ -341,6 +360,10 @@ fn main() {
     let mut api_p = ApiDescription::<()>::new();
     api_p.register(one).unwrap();
     let router_p = mk_lookup(api_p);
+    let mut api_e = ApiDescription::<()>::new();
+    api_e.register(exact_p).unwrap();
+    api_e.register(wild_p).unwrap();
+    let router_e = mk_lookup(api_e);
 
     // ---- corpus: every curated path through f, and (with itself as the variant) through both tables
     for p in CORPUS {
@@ -356,7 +379,7 @@ fn main() {
             f_res(p),
             f_res(&variant)
         ));
-        let tables: [(&str, &dyn Fn(&str) -> String); 2] = [("W", &router_w), ("P", &router_p)];
+        let tables: [(&str, &dyn Fn(&str) -> String); 3] = [("W", &router_w), ("P", &router_p), ("E", &router_e)];
         for (name, r) in tables {
             id += 1;
             out.line(&format!(
@@ -420,7 +443,7 @@ fn main() {
                     ));
                     // through lookup_route: the wildcard table sees everything; the /p/{x}
                     // table only when the prefix is empty segments
-                    let tables: [(&str, &dyn Fn(&str) -> String); 2] = [("W", &router_w), ("P", &router_p)];
+                    let tables: [(&str, &dyn Fn(&str) -> String); 3] = [("W", &router_w), ("P", &router_p), ("E", &router_e)];
                     for (name, r) in tables {
                         id += 1;
                         out.line(&format!(
@@ -467,7 +490,15 @@ fn main() {
         let segs = gen_segments(&mut rng, false, on_p);
         let a = join(&mut rng, &segs, false);
         let b = join(&mut rng, &segs, false);
-        let (name, r): (&str, &dyn Fn(&str) -> String) = if on_p { ("P", &router_p) } else { ("W", &router_w) };
+        let (name, r): (&str, &dyn Fn(&str) -> String) = if on_p {
+            if i % 4 == 3 {
+                ("E", &router_e)
+            } else {
+                ("P", &router_p)
+            }
+        } else {
+            ("W", &router_w)
+        };
         id += 1;
         out.line(&format!(
             "l {} {} {} {} => {} ; {}",
